@@ -281,6 +281,25 @@ func (t *apiTarget) colArg(c int) string {
 	return strconv.FormatUint(t.w.cols()[c], 10)
 }
 
+const nBallast = 1500
+
+// rowArg renders abstract row r as the PQL row argument.
+func (t *apiTarget) rowArg(r int) string {
+	if t.w.RowKeys {
+		return fmt.Sprintf("%q", "k"+strconv.Itoa(r))
+	}
+	return strconv.FormatUint(t.w.rows()[r], 10)
+}
+
+func (t *apiTarget) rowBackKey(k string) int {
+	if len(k) == 2 && k[0] == 'k' {
+		if n, err := strconv.Atoi(k[1:]); err == nil && n < nRows {
+			return n
+		}
+	}
+	return 9
+}
+
 func (t *apiTarget) query(pql string) (interface{}, error) {
 	resp, err := t.api.Query(t.ctx, &pilosa.QueryRequest{Index: t.index, Query: pql})
 	if err != nil {
@@ -290,6 +309,29 @@ func (t *apiTarget) query(pql string) (interface{}, error) {
 		return nil, fmt.Errorf("%s: %d results", pql, len(resp.Results))
 	}
 	return resp.Results[0], nil
+}
+
+// importKeyed is a bulk import into a field with row keys: the bits of the codes under the
+// keys k0 / k1 plus, for a set, one bit for each of the ballast keys (rows outside the model).
+func (t *apiTarget) importKeyed(field string, codes []int, clear bool) error {
+	req := &pilosa.ImportRequest{Index: t.index, Field: field, Shard: 0}
+	add := func(rowKey string, colKey string, col uint64) {
+		req.RowKeys = append(req.RowKeys, rowKey)
+		if t.w.ColKeys {
+			req.ColumnKeys = append(req.ColumnKeys, colKey)
+		} else {
+			req.ColumnIDs = append(req.ColumnIDs, col)
+		}
+	}
+	if !clear {
+		for i := 0; i < nBallast; i++ {
+			add("n"+strconv.Itoa(i), "nz", 333333)
+		}
+	}
+	for _, cd := range codes {
+		add("k"+strconv.Itoa(cd/10), "c"+strconv.Itoa(cd%10), t.w.cols()[cd%10])
+	}
+	return t.api.Import(t.ctx, req, pilosa.OptImportOptionsClear(clear))
 }
 
 func (t *apiTarget) importCodes(field string, rowOf func(cd int) uint64, codes []int, clear bool) error {
@@ -316,7 +358,11 @@ func newAPITarget(w *Workload, cmd *test.Command) (*apiTarget, error) {
 		size = 0
 	}
 	for _, fn := range append(append([]string{}, fieldNames[:w.NF]...), "src") {
-		if _, err := t.api.CreateField(t.ctx, t.index, fn, pilosa.OptFieldTypeSet(w.Cache, size)); err != nil {
+		opts := []pilosa.FieldOption{pilosa.OptFieldTypeSet(w.Cache, size)}
+		if w.RowKeys && fn != "src" {
+			opts = append(opts, pilosa.OptFieldKeys())
+		}
+		if _, err := t.api.CreateField(t.ctx, t.index, fn, opts...); err != nil {
 			return nil, err
 		}
 	}
@@ -345,6 +391,15 @@ func newAPITarget(w *Workload, cmd *test.Command) (*apiTarget, error) {
 		return nil, err
 	}
 	rows := w.rows()
+	if w.RowKeys {
+		// the ballast keys exist before the clients start; k0 / k1 do not
+		for f := 0; f < w.NF; f++ {
+			if err := t.importKeyed(fieldNames[f], nil, false); err != nil {
+				return nil, err
+			}
+		}
+		return t, nil
+	}
 	for f := 0; f < w.NF; f++ {
 		if len(w.Init[f]) > 0 {
 			if err := t.importCodes(fieldNames[f], func(cd int) uint64 { return rows[cd/10] }, w.Init[f], false); err != nil {
@@ -401,14 +456,17 @@ func (t *apiTarget) Do(g, k int, o Op) ([]int, error) {
 	}
 	switch o.Op {
 	case "SetBit":
-		return asBool(t.query(fmt.Sprintf("Set(%s, %s=%d)", t.colArg(o.C), fn, rows[o.R])))
+		return asBool(t.query(fmt.Sprintf("Set(%s, %s=%s)", t.colArg(o.C), fn, t.rowArg(o.R))))
 	case "ClearBit":
-		return asBool(t.query(fmt.Sprintf("Clear(%s, %s=%d)", t.colArg(o.C), fn, rows[o.R])))
+		return asBool(t.query(fmt.Sprintf("Clear(%s, %s=%s)", t.colArg(o.C), fn, t.rowArg(o.R))))
 	case "ImportSet", "ImportClear":
 		clear := o.Op == "ImportClear"
-		if o.Path == "roaring" && !w.ColKeys {
+		if o.Path == "roaring" && !w.ColKeys && !w.RowKeys {
 			req := &pilosa.ImportRoaringRequest{Clear: clear, Views: map[string][]byte{"": roaringData(w, o.S)}}
 			return []int{}, t.api.ImportRoaring(t.ctx, t.index, fn, 0, false, req)
+		}
+		if w.RowKeys {
+			return []int{}, t.importKeyed(fn, o.S, clear)
 		}
 		return []int{}, t.importCodes(fn, func(cd int) uint64 { return rows[cd/10] }, o.S, clear)
 	case "SetRow":
@@ -416,11 +474,11 @@ func (t *apiTarget) Do(g, k int, o Op) ([]int, error) {
 		for _, c := range o.S {
 			mask |= 1 << uint(c)
 		}
-		return asBool(t.query(fmt.Sprintf("Store(Row(src=%d), %s=%d)", mask, fn, rows[o.R])))
+		return asBool(t.query(fmt.Sprintf("Store(Row(src=%d), %s=%s)", mask, fn, t.rowArg(o.R))))
 	case "ClearRow":
-		return asBool(t.query(fmt.Sprintf("ClearRow(%s=%d)", fn, rows[o.R])))
+		return asBool(t.query(fmt.Sprintf("ClearRow(%s=%s)", fn, t.rowArg(o.R))))
 	case "Row":
-		v, err := t.query(fmt.Sprintf("Row(%s=%d)", fn, rows[o.R]))
+		v, err := t.query(fmt.Sprintf("Row(%s=%s)", fn, t.rowArg(o.R)))
 		if err != nil {
 			return nil, err
 		}
@@ -440,7 +498,7 @@ func (t *apiTarget) Do(g, k int, o Op) ([]int, error) {
 		}
 		return sortedInts(out), nil
 	case "Count":
-		v, err := t.query(fmt.Sprintf("Count(Row(%s=%d))", fn, rows[o.R]))
+		v, err := t.query(fmt.Sprintf("Count(Row(%s=%s))", fn, t.rowArg(o.R)))
 		if err != nil {
 			return nil, err
 		}
@@ -459,6 +517,17 @@ func (t *apiTarget) Do(g, k int, o Op) ([]int, error) {
 			return nil, fmt.Errorf("Rows: result %T", v)
 		}
 		out := map[int]bool{}
+		if w.RowKeys {
+			for _, key := range ri.Keys {
+				if !strings.HasPrefix(key, "n") {
+					out[t.rowBackKey(key)] = true
+				}
+			}
+			if len(ri.Keys) == 0 && len(ri.Rows) > 0 {
+				return nil, fmt.Errorf("Rows on a keyed field answered row ids %v", ri.Rows)
+			}
+			return sortedInts(out), nil
+		}
 		for _, r := range ri.Rows {
 			if r < 900 {
 				out[w.rowBack(r)] = true
@@ -483,12 +552,21 @@ func (t *apiTarget) Do(g, k int, o Op) ([]int, error) {
 			if len(p) != 2 {
 				return nil, fmt.Errorf("ExportCSV line %q", line)
 			}
-			r, err := strconv.ParseUint(p[0], 10, 64)
-			if err != nil {
-				return nil, fmt.Errorf("ExportCSV line %q", line)
-			}
-			if r >= 900 {
-				continue
+			ar := 9
+			if w.RowKeys {
+				if strings.HasPrefix(p[0], "n") {
+					continue
+				}
+				ar = t.rowBackKey(p[0])
+			} else {
+				r, err := strconv.ParseUint(p[0], 10, 64)
+				if err != nil {
+					return nil, fmt.Errorf("ExportCSV line %q", line)
+				}
+				if r >= 900 {
+					continue
+				}
+				ar = w.rowBack(r)
 			}
 			c := 9
 			if w.ColKeys {
@@ -496,7 +574,7 @@ func (t *apiTarget) Do(g, k int, o Op) ([]int, error) {
 			} else if cv, err := strconv.ParseUint(p[1], 10, 64); err == nil {
 				c = w.colBack(cv)
 			}
-			out[code(w.rowBack(r), c)] = true
+			out[code(ar, c)] = true
 		}
 		return sortedInts(out), nil
 	case "TopN":
@@ -541,7 +619,14 @@ func (t *apiTarget) Do(g, k int, o Op) ([]int, error) {
 		return []int{}, err
 	case "Noise":
 		var pql string
-		if w.ColKeys {
+		if w.RowKeys {
+			// a first use of yet another new row key, on a column outside the model
+			col := "333333"
+			if w.ColKeys {
+				col = `"nz"`
+			}
+			pql = fmt.Sprintf("Set(%s, %s=%q)", col, fn, fmt.Sprintf("nx%d-%d", g, k))
+		} else if w.ColKeys {
 			pql = fmt.Sprintf("Set(%q, %s=%d)", fmt.Sprintf("n%d-%d-%d", w.Idx, g, k), fn, noiseRow+uint64(g))
 		} else {
 			pql = fmt.Sprintf("Set(%d, %s=%d)", SW+10+uint64(g*100+k), fn, noiseRow+uint64(g))
